@@ -14,10 +14,10 @@ GEN = dict(kinds=['int', 'octs', 'bits', 'bool', 'null', 'utf8', 'oid'], tagnums
 
 def run(ctx):
     codec_props.run_prop(ctx)
-    max_len = 10 if ctx.quick else 13
+    max_len = 10 if ctx.quick else 12
     with tlc.Scratch('c06s') as sc:
         cases = P.generate(ctx, sc, GEN, name='MC_gen_streams', invariants=['TypeOK', 'ProperPrefixIsShort', 'OneTLV'])
-        streams = SP.pick_streams(cases, max_len, 12 if ctx.quick else 36, ctx.seed, min_items=1, max_items=2)
+        streams = SP.pick_streams(cases, max_len, 12 if ctx.quick else 24, ctx.seed, min_items=1, max_items=2)
         lay = set()
         for st in streams[:3]:
             for k in (1, len(st.data) - 1):
